@@ -142,6 +142,16 @@ pub struct Spec {
     /// Shelley-family only: (true = stake key registration, false = deregistration, key index)
     #[serde(default)]
     pub certs: Vec<(bool, u8)>,
+    /// how the auxiliary data is written (only with `metadata`): 0 canonical metadata map; 1 indefinite-length list
+    /// inside; 2 indefinite-length maps; 3 non-minimal integer key; 4 the Allegra `[metadata, []]` array form;
+    /// 5 the Alonzo `259({0: metadata})` form; 6 form 5 with an indefinite list inside. Forms an era does not know
+    /// fall back to `aux_form % 4`.
+    #[serde(default)]
+    pub aux_form: u8,
+    /// let Shelley / Allegra recipes carry native assets and a mint field too (the Shelley-MA validator is one piece
+    /// of code for the three eras and reads the field in all of them)
+    #[serde(default)]
+    pub early_multiasset: bool,
 }
 
 #[derive(Debug, Clone)]
@@ -322,7 +332,7 @@ pub fn forge_with(spec: &Spec, tw: &Tweaks) -> Result<Forged, String> {
             continue;
         }
         let mut a = Assets::new();
-        if era.multiasset() {
+        if era.multiasset() || spec.early_multiasset {
             for (p, nm, q) in &i.assets {
                 if *q == 0 {
                     continue;
@@ -367,7 +377,7 @@ pub fn forge_with(spec: &Spec, tw: &Tweaks) -> Result<Forged, String> {
     }
     // ---- mint ----
     let mut mint: Assets = Assets::new();
-    if era.multiasset() {
+    if era.multiasset() || spec.early_multiasset {
         for (p, nm, q) in spec.mint.iter().chain(tw.unbalanced_mint.iter()) {
             if *q == 0 {
                 continue;
@@ -433,8 +443,21 @@ pub fn forge_with(spec: &Spec, tw: &Tweaks) -> Result<Forged, String> {
     }
     // ---- auxiliary data ----
     let aux: Option<Vec<u8>> = spec.metadata.map(|m| {
-        let md = cx::map(vec![(cx::uint(674), cx::map(vec![(cx::text("msg"), cx::array(vec![cx::text(&format!("pv-{m}"))]))]))]);
-        cx::write(&md)
+        let mut form = spec.aux_form % 7;
+        if (form == 4 && era < EraK::Allegra) || (form >= 5 && !era.alonzo_plus()) {
+            form %= 4;
+        }
+        let items = vec![cx::text(&format!("pv-{m}")), cx::uint(m as u64)];
+        let list = if form == 1 || form == 6 { cx::array_indef(items) } else { cx::array(items) };
+        let inner = vec![(cx::text("msg"), list)];
+        let key = if form == 3 { cx::node(pvkit::cborx::Kind::UInt(674, pvkit::cborx::W::B4)) } else { cx::uint(674) };
+        let md = if form == 2 { cx::map_indef(vec![(key, cx::map_indef(inner))]) } else { cx::map(vec![(key, cx::map(inner))]) };
+        let node = match form {
+            4 => cx::array(vec![md, cx::array(vec![])]),
+            5 | 6 => cx::tag(259, cx::map(vec![(cx::uint(0), md)])),
+            _ => md,
+        };
+        cx::write(&node)
     });
     // ---- witness-set parts that do not depend on the body ----
     let mut wit_extra: Vec<(u64, Node)> = vec![];
